@@ -174,6 +174,11 @@ def extract_patches_with_slice(
     bounds = np.round(
         patch_centers[:, None, None, :] + offsets[:, None, :] + corners
     ).astype(int)
+    # Both corners were rounded (half to even): when centre + offset is a half
+    # integer and the patch extent is odd they end up extent - 1 or extent + 1
+    # apart and the assignment below cannot broadcast. Derive the high corner
+    # from the rounded low corner so that every window has the patch shape.
+    bounds[:, :, 1, :] = bounds[:, :, 0, :] + np.asarray(patch_shape)
     # Limit the points to exist inside the image boundaries
     pixel_bounds = np.clip(bounds, [0, 0], [pixels.shape[1:]])
     # Then compute the regions inside the patches that need to be filled
